@@ -1,28 +1,340 @@
 import Props.Defs
-namespace Coma.Proofs
+/-
+  Proofs/Cigar.lean — proofs for C03 (HitEnum walk / run-length aggregation / replay).
+  Helper lemmas live in `Coma.Proofs.Cigar`; the five theorems used by Props/C03.lean live in
+  `Coma.Proofs`.
+-/
+namespace Coma.Proofs.Cigar
 open Coma Coma.Spec
+
+/-! ### run-length aggregation -/
+
+theorem expand_aggregateFrom (prev : Hit) (n : Nat) (hs : List Hit) :
+    expandRuns (aggregateFrom prev n hs) = List.replicate n prev ++ hs := by
+  induction hs generalizing prev n with
+  | nil => simp [aggregateFrom, expandRuns]
+  | cons h hs ih =>
+    simp only [aggregateFrom]
+    split
+    · subst_vars; rw [ih]; simp [List.replicate_succ', List.append_assoc]
+    · simp [expandRuns, ih]
+
+theorem aggregateFrom_head (prev : Hit) (n : Nat) (hs : List Hit) :
+    ∃ m tl, aggregateFrom prev n hs = (m, prev) :: tl := by
+  induction hs generalizing n with
+  | nil => exact ⟨n, [], rfl⟩
+  | cons h hs ih =>
+    simp only [aggregateFrom]
+    split
+    · exact ih _
+    · exact ⟨n, _, rfl⟩
+
+theorem aggregateFrom_pos (prev : Hit) (n : Nat) (hn : 0 < n) (hs : List Hit) :
+    ∀ r ∈ aggregateFrom prev n hs, 0 < r.1 := by
+  induction hs generalizing prev n with
+  | nil => simp [aggregateFrom]; exact hn
+  | cons h hs ih =>
+    simp only [aggregateFrom]
+    split
+    · exact ih _ _ (by omega)
+    · intro r hr
+      rcases List.mem_cons.1 hr with rfl | hr
+      · exact hn
+      · exact ih _ _ (by omega) r hr
+
+theorem aggregateFrom_consec (prev : Hit) (n : Nat) (hs : List Hit) :
+    Consec (fun (a b : Nat × Hit) => a.2 ≠ b.2) (aggregateFrom prev n hs) := by
+  induction hs generalizing prev n with
+  | nil => simp [aggregateFrom, Consec]
+  | cons h hs ih =>
+    simp only [aggregateFrom]
+    split
+    · exact ih _ _
+    · rename_i hne
+      obtain ⟨m, tl, e⟩ := aggregateFrom_head h 1 hs
+      have := ih h 1
+      rw [e] at this ⊢
+      exact ⟨fun h' => hne h'.symm, this⟩
+
+theorem aggregateFrom_getLast (prev : Hit) (n : Nat) (hs : List Hit) :
+    (aggregateFrom prev n hs).getLast?.map (·.2) = (prev :: hs).getLast? := by
+  induction hs generalizing prev n with
+  | nil => simp [aggregateFrom]
+  | cons h hs ih =>
+    simp only [aggregateFrom]
+    split
+    · subst_vars; rw [ih]; simp [List.getLast?_cons_cons]
+    · obtain ⟨m, tl, e⟩ := aggregateFrom_head h 1 hs
+      have := ih h 1
+      rw [e] at this ⊢
+      rw [List.getLast?_cons_cons, this, List.getLast?_cons_cons]
+
+/-! ### the reference-index walk -/
+
+/-- successor state of the pair iterator -/
+def nextCur : List Pr → Option Pr × List Pr
+  | []      => (none, [])
+  | n :: ns => (some n, ns)
+
+/-- closed form of the walk's output -/
+def walkOut : Int → Int → List Pr → List Hit
+  | _, _, [] => []
+  | refIdx, prevQ, c :: ps =>
+    List.replicate ((c.q.site - prevQ).natAbs - 1) Hit.I ++
+      (List.replicate (c.r.site - refIdx).toNat Hit.D ++ Hit.M :: walkOut (c.r.site + 1) c.q.site ps)
+
+theorem hitWalk_past (fuel : Nat) (refIdx last : Int) (cur : Option Pr) (rest : List Pr) (prevQ : Int)
+    (h : refIdx > last) : hitWalk fuel refIdx last cur rest prevQ = .ok [] := by
+  cases fuel with
+  | zero => rfl
+  | succ f => simp [hitWalk, h]
+
+theorem ins_eq (n : Nat) :
+    (if n > 1 then List.replicate (n - 1) Hit.I else []) = List.replicate (n - 1) Hit.I := by
+  split
+  · rfl
+  · have : n - 1 = 0 := by omega
+    simp [this]
+
+theorem ins_after (cq prevQ : Int) :
+    List.replicate ((cq - (if (cq - prevQ).natAbs > 1 then cq else prevQ)).natAbs - 1) Hit.I = [] := by
+  split
+  · simp
+  · have : (cq - prevQ).natAbs - 1 = 0 := by omega
+    simp [this]
+
+theorem hitWalk_step_M (fuel : Nat) (refIdx last : Int) (c : Pr) (ps : List Pr) (prevQ : Int)
+    (h1 : refIdx ≤ last) (h2 : c.r.site = refIdx) :
+    hitWalk (fuel + 1) refIdx last (some c) ps prevQ =
+      (do let tl ← hitWalk fuel (refIdx + 1) last (nextCur ps).1 (nextCur ps).2 c.q.site
+          return List.replicate ((c.q.site - prevQ).natAbs - 1) Hit.I ++ Hit.M :: tl) := by
+  have hnl : ¬ (refIdx > last) := by omega
+  simp only [hitWalk, hnl, h2, if_true, if_false, ins_eq]
+  cases ps <;> simp [nextCur]
+
+theorem hitWalk_step_D (fuel : Nat) (refIdx last : Int) (c : Pr) (ps : List Pr) (prevQ : Int)
+    (h1 : refIdx ≤ last) (h2 : refIdx < c.r.site) :
+    hitWalk (fuel + 1) refIdx last (some c) ps prevQ =
+      (do let tl ← hitWalk fuel (refIdx + 1) last (some c) ps
+                      (if (c.q.site - prevQ).natAbs > 1 then c.q.site else prevQ)
+          return List.replicate ((c.q.site - prevQ).natAbs - 1) Hit.I ++ Hit.D :: tl) := by
+  have hnl : ¬ (refIdx > last) := by omega
+  have hne : ¬ (c.r.site = refIdx) := by omega
+  have hgt : c.r.site > refIdx := by omega
+  simp only [hitWalk, hnl, hne, hgt, if_true, if_false, ins_eq]
+
+theorem walk_gap (c : Pr) (ps : List Pr) (last : Int) (hle : c.r.site ≤ last) (fuel : Nat) (k : Nat) :
+    ∀ (refIdx prevQ : Int), c.r.site - refIdx = k →
+      hitWalk (fuel + k + 1) refIdx last (some c) ps prevQ =
+        (do let tl ← hitWalk fuel (c.r.site + 1) last (nextCur ps).1 (nextCur ps).2 c.q.site
+            return List.replicate ((c.q.site - prevQ).natAbs - 1) Hit.I ++
+              (List.replicate k Hit.D ++ Hit.M :: tl)) := by
+  induction k with
+  | zero =>
+    intro refIdx prevQ hk
+    have e : c.r.site = refIdx := by omega
+    subst e
+    rw [hitWalk_step_M _ _ _ _ _ _ hle rfl]
+    simp
+  | succ k ih =>
+    intro refIdx prevQ hk
+    have e : fuel + (k + 1) + 1 = (fuel + k + 1) + 1 := by omega
+    rw [e, hitWalk_step_D _ _ _ _ _ _ (by omega) (by omega), ih (refIdx + 1) _ (by omega), ins_after]
+    simp [List.replicate_succ]
+
+theorem head_le_getLast (c : Pr) (ps : List Pr)
+    (h : (c :: ps).Pairwise (fun a b => a.r.site < b.r.site)) :
+    c.r.site ≤ ((c :: ps).getLast (by simp)).r.site := by
+  have hm := List.getLast_mem (l := c :: ps) (by simp)
+  rcases List.mem_cons.1 hm with e | hm
+  · rw [e]; omega
+  · have := (List.pairwise_cons.1 h).1 _ hm; omega
+
+theorem walk_eq (ps : List Pr) : ∀ (c : Pr) (fuel : Nat) (refIdx prevQ last : Int),
+    (c :: ps).Pairwise (fun a b => a.r.site < b.r.site) → refIdx ≤ c.r.site →
+    last = ((c :: ps).getLast (by simp)).r.site →
+    (last - refIdx + 1).toNat ≤ fuel →
+    hitWalk fuel refIdx last (some c) ps prevQ = .ok (walkOut refIdx prevQ (c :: ps)) := by
+  induction ps with
+  | nil =>
+    intro c fuel refIdx prevQ last hp hr hl hf
+    simp only [List.getLast_singleton] at hl
+    subst hl
+    obtain ⟨k, hk⟩ : ∃ k : Nat, c.r.site - refIdx = k := ⟨(c.r.site - refIdx).toNat, by omega⟩
+    obtain ⟨f', rfl⟩ : ∃ f', fuel = f' + k + 1 := ⟨fuel - k - 1, by omega⟩
+    rw [walk_gap c [] _ (Int.le_refl _) f' k refIdx prevQ hk, hitWalk_past _ _ _ _ _ _ (by omega)]
+    have : (c.r.site - refIdx).toNat = k := by omega
+    simp only [walkOut, this]
+    rfl
+  | cons n ns ih =>
+    intro c fuel refIdx prevQ last hp hr hl hf
+    rw [List.getLast_cons_cons] at hl
+    have hp' := (List.pairwise_cons.1 hp)
+    have hcn : c.r.site < n.r.site := hp'.1 n (by simp)
+    have hnl := head_le_getLast n ns hp'.2
+    rw [← hl] at hnl
+    obtain ⟨k, hk⟩ : ∃ k : Nat, c.r.site - refIdx = k := ⟨(c.r.site - refIdx).toNat, by omega⟩
+    obtain ⟨f', rfl⟩ : ∃ f', fuel = f' + k + 1 := ⟨fuel - k - 1, by omega⟩
+    rw [walk_gap c (n :: ns) _ (by omega) f' k refIdx prevQ hk]
+    simp only [nextCur]
+    rw [ih n f' (c.r.site + 1) c.q.site last hp'.2 (by omega) hl (by omega)]
+    have : (c.r.site - refIdx).toNat = k := by omega
+    simp only [walkOut, this]
+    rfl
+
+theorem valid_pairwise {rev : Bool} {l : List Pr} (hv : ValidMatching rev (sitePairs l)) :
+    l.Pairwise (fun a b => a.r.site < b.r.site ∧
+      (if rev then b.q.site < a.q.site else a.q.site < b.q.site)) := by
+  unfold ValidMatching sitePairs at hv
+  exact List.pairwise_map.1 hv
+
+theorem valid_refAsc {rev : Bool} {l : List Pr} (hv : ValidMatching rev (sitePairs l)) :
+    l.Pairwise (fun a b => a.r.site < b.r.site) :=
+  (valid_pairwise hv).imp (fun h => h.1)
+
+theorem dedup_id (rev : Bool) (l : List Pr) (hv : ValidMatching rev (sitePairs l)) :
+    dedupQueryKeepLast l = l := by
+  induction l with
+  | nil => rfl
+  | cons p t ih =>
+    have hp := List.pairwise_cons.1 (valid_pairwise hv)
+    have hvt : ValidMatching rev (sitePairs t) := by
+      unfold ValidMatching sitePairs at hv ⊢
+      exact (List.pairwise_cons.1 hv).2
+    cases t with
+    | nil => rfl
+    | cons q rest =>
+      have h := (hp.1 q (by simp)).2
+      have hne : ¬ (p.q.site = q.q.site) := by
+        cases rev <;> simp at h <;> omega
+      simp only [dedupQueryKeepLast, hne, if_false, ih hvt]
+
+theorem hitEnums_eq (rev : Bool) (p : Pr) (ps : List Pr)
+    (hv : ValidMatching rev (sitePairs (p :: ps))) :
+    hitEnums (p :: ps) = .ok (Hit.M :: walkOut (p.r.site + 1) p.q.site ps) := by
+  unfold hitEnums
+  rw [dedup_id rev _ hv]
+  simp only
+  rw [walk_eq ps p _ p.r.site p.q.site _ (valid_refAsc hv) (Int.le_refl _) rfl (Nat.le_refl _)]
+  simp [walkOut]
+
+theorem walkOut_getLast (c : Pr) (ps : List Pr) : ∀ (refIdx prevQ : Int),
+    (walkOut refIdx prevQ (c :: ps)).getLast? = some Hit.M := by
+  induction ps generalizing c with
+  | nil => intro r q; simp [walkOut]
+  | cons n ns ih =>
+    intro r q
+    have := ih n (c.r.site + 1) c.q.site
+    rw [walkOut]
+    generalize walkOut (c.r.site + 1) c.q.site (n :: ns) = w at this ⊢
+    cases w with
+    | nil => simp at this
+    | cons a w => simp [List.getLast?_append, List.getLast?_cons_cons, this]
+
+theorem replayHits_replicate_I (rev : Bool) (a : Nat) : ∀ (r q : Int) (tl : List Hit),
+    replayHits rev r q (List.replicate a Hit.I ++ tl) =
+      replayHits rev r (if rev then q - a else q + a) tl := by
+  induction a with
+  | zero => intro r q tl; cases rev <;> simp
+  | succ a ih =>
+    intro r q tl
+    simp only [List.replicate_succ, List.cons_append, replayHits]
+    rw [ih]
+    cases rev <;> simp <;> congr 1 <;> omega
+
+theorem replayHits_replicate_D (rev : Bool) (b : Nat) : ∀ (r q : Int) (tl : List Hit),
+    replayHits rev r q (List.replicate b Hit.D ++ tl) = replayHits rev (r + b) q tl := by
+  induction b with
+  | zero => intro r q tl; simp
+  | succ b ih =>
+    intro r q tl
+    simp only [List.replicate_succ, List.cons_append, replayHits]
+    rw [ih]
+    congr 1; omega
+
+theorem replay_walkOut (rev : Bool) (ps : List Pr) : ∀ (c : Pr),
+    ValidMatching rev (sitePairs (c :: ps)) →
+    replayHits rev c.r.site c.q.site (walkOut (c.r.site + 1) c.q.site ps) = sitePairs ps := by
+  induction ps with
+  | nil => intro c _; simp [walkOut, replayHits, sitePairs]
+  | cons n ns ih =>
+    intro c hv
+    have hp := List.pairwise_cons.1 (valid_pairwise hv)
+    have hvt : ValidMatching rev (sitePairs (n :: ns)) := by
+      unfold ValidMatching sitePairs at hv ⊢
+      exact (List.pairwise_cons.1 hv).2
+    have h := hp.1 n (by simp)
+    rw [walkOut, replayHits_replicate_I, replayHits_replicate_D, replayHits]
+    have e1 : c.r.site + ((n.r.site - (c.r.site + 1)).toNat : Int) + 1 = n.r.site := by omega
+    have e2 : (if rev then (if rev then c.q.site - (((n.q.site - c.q.site).natAbs - 1 : Nat) : Int)
+                else c.q.site + (((n.q.site - c.q.site).natAbs - 1 : Nat) : Int)) - 1
+               else (if rev then c.q.site - (((n.q.site - c.q.site).natAbs - 1 : Nat) : Int)
+                else c.q.site + (((n.q.site - c.q.site).natAbs - 1 : Nat) : Int)) + 1) = n.q.site := by
+      have h2 := h.2
+      cases rev <;> simp at h2 ⊢ <;> omega
+    rw [e1, e2, ih n hvt]
+    simp [sitePairs]
+
+theorem renderRuns_ne_empty (n : Nat) (h : Hit) (tl : List (Nat × Hit)) :
+    renderRuns ((n, h) :: tl) ≠ "" := by
+  intro he
+  simp only [renderRuns, List.map_cons, String.join_cons, String.append_eq_empty_iff] at he
+  have : h.chr ≠ "" := by cases h <;> decide
+  exact this he.1.2
+
+end Coma.Proofs.Cigar
+
+namespace Coma.Proofs
+open Coma Coma.Spec Coma.Proofs.Cigar
 
 theorem cigar_roundtrip (rev : Bool) (p : Pr) (ps : List Pr) (hv : ValidMatching rev (sitePairs (p :: ps))) :
     ∃ hs rs, hitEnums (p :: ps) = .ok hs ∧ aggregate hs = .ok rs ∧
       replay rev p.r.site p.q.site (expandRuns rs) = some (sitePairs (p :: ps)) := by
-  sorry
+  refine ⟨_, _, hitEnums_eq rev p ps hv, rfl, ?_⟩
+  rw [expand_aggregateFrom]
+  simp only [List.replicate_one, List.singleton_append, replay]
+  rw [replay_walkOut rev ps p hv]
+  rfl
 
 theorem expand_aggregate (hs : List Hit) (rs : List (Nat × Hit)) (h : aggregate hs = .ok rs) :
     expandRuns rs = hs := by
-  sorry
+  cases hs with
+  | nil => simp [aggregate] at h
+  | cons a hs =>
+    simp only [aggregate, Except.ok.injEq] at h
+    subst h
+    rw [expand_aggregateFrom]; rfl
 
 theorem hits_start_end_M (rev : Bool) (p : Pr) (ps : List Pr) (hv : ValidMatching rev (sitePairs (p :: ps)))
     (hs : List Hit) (h : hitEnums (p :: ps) = .ok hs) :
     hs.head? = some Hit.M ∧ hs.getLast? = some Hit.M := by
-  sorry
+  have e := hitEnums_eq rev p ps hv
+  have e2 := walkOut_getLast p ps p.r.site p.q.site
+  rw [h] at e
+  injection e with e
+  subst e
+  refine ⟨rfl, ?_⟩
+  simpa [walkOut] using e2
 
 theorem aggregate_runs (hs : List Hit) (rs : List (Nat × Hit)) (h : aggregate hs = .ok rs) :
     rs ≠ [] ∧ (∀ r ∈ rs, 0 < r.1) ∧ Consec (fun a b => a.2 ≠ b.2) rs ∧
     (rs.head?.map (·.2) = hs.head?) ∧ (rs.getLast?.map (·.2) = hs.getLast?) := by
-  sorry
-
+  cases hs with
+  | nil => simp [aggregate] at h
+  | cons a hs =>
+    simp only [aggregate, Except.ok.injEq] at h
+    subst h
+    refine ⟨?_, aggregateFrom_pos a 1 (by omega) hs, aggregateFrom_consec a 1 hs, ?_, aggregateFrom_getLast a 1 hs⟩
+    · obtain ⟨m, tl, e⟩ := aggregateFrom_head a 1 hs
+      simp [e]
+    · obtain ⟨m, tl, e⟩ := aggregateFrom_head a 1 hs
+      simp [e]
 theorem cigar_nonempty (rev : Bool) (p : Pr) (ps : List Pr) (hv : ValidMatching rev (sitePairs (p :: ps))) :
     ∃ s, cigarOf aggregate (p :: ps) = .ok s ∧ s ≠ "" := by
-  sorry
+  obtain ⟨m, tl, e⟩ := aggregateFrom_head Hit.M 1 (walkOut (p.r.site + 1) p.q.site ps)
+  refine ⟨renderRuns ((m, Hit.M) :: tl), ?_, renderRuns_ne_empty _ _ _⟩
+  simp only [cigarOf, List.isEmpty_cons, Bool.false_eq_true, if_false, hitEnums_eq rev p ps hv,
+    aggregate, ← e]
+  rfl
 
 end Coma.Proofs
